@@ -288,7 +288,7 @@ theorem export_read_records (h : Hints) (recs : List Rec) (pi : Option Nat) (pv 
       obtain ⟨n, hn1, _, hn3⟩ := hts t rfl
       simp only [Option.bind_some, hn1, timeOf, hn3]
   have hov := ofVal_toVal (ratesOf pv) (build h recs) pi h.tps hrate
-    (fun q hq => hback q.ts fun t ht => htr.1 q hq t ht) (fun m hm => hback m.ts fun t ht => htr.2 m hm t ht) (aec_keys_nodup h recs)
+    (fun q hq => hback q.ts fun t ht => htr.1 q hq t ht) (fun m hm => hback m.ts fun t ht => htr.2 m hm t ht) (nodup_of_nodup_map _ _ (aec_keys_nodup h recs))
   obtain ⟨r, hr1, hr2, hr3, hr4⟩ := records_closed (readBackOf (build h recs)) (closed_readBackOf _ (inv_build h recs).1)
   refine ⟨_, _, r, hf fuel hfu, hov, hr1, ?_, ?_, ?_, ?_, rfl⟩
   · rw [hr2]; exact records_resolve_to_projection h recs
@@ -333,7 +333,7 @@ theorem built_block_outcome (h : Hints) (g : List Rec) (pi : Option Nat) (rates 
       obtain ⟨n, hn1, _, hn3⟩ := hts t rfl
       simp only [Option.bind_some, hn1, timeOf, hn3]
   have hov := ofVal_toVal rates (build h g) pi h.tps hrate
-    (fun q hq => hback q.ts fun t ht => htr.1 q hq t ht) (fun m hm => hback m.ts fun t ht => htr.2 m hm t ht) (aec_keys_nodup h g)
+    (fun q hq => hback q.ts fun t ht => htr.1 q hq t ht) (fun m hm => hback m.ts fun t ht => htr.2 m hm t ht) (nodup_of_nodup_map _ _ (aec_keys_nodup h g))
   obtain ⟨r, hr1, hr2, hr3, hr4⟩ := records_closed (readBackOf (build h g)) (closed_readBackOf _ (inv_build h g).1)
   refine ⟨{ blk := readBackOf (build h g), pi := pi, tps := h.tps }, r, ?_, ?_, ?_, ?_, ?_, rfl⟩
   · simp only [blockOutcome, hov, hr1]
